@@ -1,7 +1,7 @@
 (** * C15 — the symbolic expression algebra agrees with concrete arithmetic modulo 2^w.
     [eval] is the model of [Expr::evaluate]; [eqm (2^w)] is congruence modulo 2^w. *)
 From Coq Require Import ZArith List Bool Zdiv.
-From HPBF Require Import Cell Expr ExprProofs.
+From HPBF Require Import Cell Expr ExprProofs ExprShape.
 Import ListNotations.
 Open Scope Z_scope.
 
@@ -30,22 +30,42 @@ Theorem C15_identity : forall w, 0 <= w -> forall rho a x, e_identity a = Some x
 Proof. exact eval_identity. Qed.
 Theorem C15_const_inc_of : forall w, 0 <= w -> forall rho a v c, e_const_inc_of a v = Some c -> eqm (2 ^ w) (eval w a rho) (rho v + c).
 Proof. exact eval_const_inc_of. Qed.
-Theorem C15_prod_of : forall w, 0 <= w -> forall rho a v r, e_prod_of a v = Some r -> eqm (2 ^ w) (eval w a rho) (rho v * eval w r rho).
+Theorem C15_prod_of : forall w, 0 <= w -> forall rho a v r, e_prod_of w a v = Some r -> eqm (2 ^ w) (eval w a rho) (rho v * eval w r rho).
 Proof. exact eval_prod_of. Qed.
 
-(** decompositions proved under a shape hypothesis (at most one bare-variable part per variable;
-    a constant part, if any, first).  The full statement quantifies over expressions reachable
-    through the public API; that reachable expressions have this shape is NOT proved here — it
-    is checked on every expression the correspondence run reaches (see DESIGN §4 C15). *)
-Theorem C15_inc_of_partial : forall w, 0 <= w -> forall rho a v r, singles_unique v a -> e_inc_of a v = Some r ->
+(** the remaining decompositions hold for every expression built through the public API
+    ([built w]: the closure of val, var, add, mul, neg, half, normalize, symb_evaluate and of the
+    results of inc_of, prod_inc_of, prod_of).  They rest on a representation invariant that the
+    part lists of such expressions satisfy ([C15_built_shape]: every part with at most one variable
+    is strictly greater than every part before it — the lists are NOT sorted in general, because a
+    product with a single part appends variables without re-sorting), which gives "at most one
+    bare-variable part per variable" and "a constant part, if any, comes first". *)
+Theorem C15_built_shape : forall w a, built w a -> J a /\ (forall v, singles_unique v a) /\ const_first a.
+Proof. intros w a B. pose proof (built_J w a B) as HJ. split; [exact HJ|]. split; [intros v; apply J_singles; exact HJ|apply J_const_first; exact HJ]. Qed.
+Theorem C15_inc_of : forall w, 0 <= w -> forall rho a v r, built w a -> e_inc_of a v = Some r ->
   eqm (2 ^ w) (eval w a rho) (rho v + eval w r rho).
-Proof. exact eval_inc_of_partial. Qed.
-Theorem C15_prod_inc_of_partial : forall w, 0 <= w -> forall rho a v r m, singles_unique v a -> e_prod_inc_of a v = Some (r, m) ->
+Proof. exact eval_inc_of. Qed.
+Theorem C15_prod_inc_of : forall w, 0 <= w -> forall rho a v r m, built w a -> e_prod_inc_of a v = Some (r, m) ->
   eqm (2 ^ w) (eval w a rho) (m * rho v + eval w r rho).
-Proof. exact eval_prod_inc_of_partial. Qed.
-Theorem C15_constant_part_partial : forall w, 0 <= w -> forall a, const_first a ->
+Proof. exact eval_prod_inc_of. Qed.
+Theorem C15_constant_part : forall w, 0 <= w -> forall a, built w a ->
   eqm (2 ^ w) (eval w a (fun _ => 0)) (e_constant_part a).
-Proof. exact eval_constant_part_partial. Qed.
+Proof. exact eval_constant_part. Qed.
+
+(** why [prod_of] merges the parts it produces one by one (repaired by a "fix:" commit, D10): with
+    the variable merely removed from every part, y*x + y gave the list [x; 1] — constant part not
+    first, [constant_part] = 0 instead of 1.  The repaired function returns [1; x]. *)
+Example C15_prod_of_keeps_the_shape :
+  let a := e_add 8 (e_mul 8 (e_var 1) (e_var 0)) (e_var 1) in
+  a = [(1, [0; 1]); (1, [1])] /\ built 8 a /\
+  map (fun p => (fst p, remove_var 1 (snd p))) a = [(1, [0]); (1, [])] /\
+  e_constant_part [(1, [0]); (1, [])] = 0 /\
+  e_prod_of 8 a 1 = Some [(1, []); (1, [0])] /\ e_constant_part [(1, []); (1, [0])] = 1.
+Proof.
+  cbv zeta. split; [vm_compute; reflexivity|]. split.
+  - apply b_add; [apply b_mul|]; apply b_var.
+  - vm_compute. repeat split; reflexivity.
+Qed.
 
 Example C15_nonvacuous :
   (* 128*x*x + 129*x*x*y at 8 bits, x = 3, y = 5: normalisation rewrites it and keeps the value *)
@@ -66,6 +86,7 @@ Print Assumptions C15_constant.
 Print Assumptions C15_identity.
 Print Assumptions C15_const_inc_of.
 Print Assumptions C15_prod_of.
-Print Assumptions C15_inc_of_partial.
-Print Assumptions C15_prod_inc_of_partial.
-Print Assumptions C15_constant_part_partial.
+Print Assumptions C15_built_shape.
+Print Assumptions C15_inc_of.
+Print Assumptions C15_prod_inc_of.
+Print Assumptions C15_constant_part.
